@@ -497,6 +497,9 @@ fn run_history(rep: &mut Report, prop: &str, seed: u64, len: usize) -> HistoryOu
     let mut force_forged = false;
     // C11, kept by the harness itself: peer -> (hash of the peer's last state, when it CHANGED to it)
     let mut last_change: BTreeMap<u64, (packed::Byte32, u64)> = BTreeMap::new();
+    // whether the peer whose proof is being handled held a proved state that was NOT the stored
+    // tip (the lagging-peer situation of the known long-fork finding)
+    let mut proving_peer_lagged = false;
     // C05, one history in eight: afterwards the chain stands still for more than MESSAGE_TIMEOUT
     // while the peers keep answering (the quiet-chain probe)
     let quiet_probe = c05 && seed % 8 == 1;
@@ -1223,6 +1226,10 @@ fn run_history(rep: &mut Report, prop: &str, seed: u64, len: usize) -> HistoryOu
                 let before = trusted(&mut node);
                 let before_tip = node.env.storage.get_last_state();
                 let before_state = node.env.peers.get_state(&PeerIndex::new(p as usize));
+                proving_peer_lagged = before_state
+                    .as_ref()
+                    .and_then(|s| s.get_prove_state().map(|ps| ps.get_last_header().header().hash() != before_tip.1.calc_header_hash()))
+                    .unwrap_or(false);
                 let bytes: Bytes = server::light_client_message(msg.clone());
                 let r = catch(|| {
                     block_on(node.lc.received(as_ctx(&node.nc), PeerIndex::new(p as usize), bytes))
@@ -1550,8 +1557,15 @@ fn run_history(rep: &mut Report, prop: &str, seed: u64, len: usize) -> HistoryOu
                 let mut r = replay.clone();
                 r.push(format!("# {} while handling `{}`", what, lines.last().map(|l| l.chars().take(80).collect::<String>()).unwrap_or_default()));
                 if what.contains("long-fork") || what.contains("long fork") || what.contains("deliberate") {
+                    // the known finding is the LAGGING peer (its proved state is on an abandoned
+                    // branch while the store moved on through another peer); an abort with a peer
+                    // that was in step with the store is something else
                     rep.violate(
-                        "C05|long-fork-abort-among-honest-peers",
+                        if proving_peer_lagged {
+                            "C05|long-fork-abort-among-honest-peers"
+                        } else {
+                            "C05|long-fork-abort-among-honest-peers|peer-in-step-with-the-store"
+                        },
                         "the client stops with the long-fork abort although every peer follows one chain that was reorganised by less than last-N blocks",
                         r,
                     );
